@@ -4,7 +4,7 @@
     unit, list, prod, sumbool, sumor). *)
 Require Extraction.
 Require Import ExtrOcamlBasic.
-From Age Require Import Base Base64 Format FormatIO IO Stream Armor Bech32 Prims Recipients Age.
+From Age Require Import Base Base64 Format FormatIO IO Stream Armor Bech32 Prims Recipients Age KeyFile Plugin SshEnc Cli.
 Extraction Blacklist List String Int Bytes.
 Extraction "model.ml"
   Base.n2b Base.b2n Base.split_on Base.join_on Base.dec_of_N
@@ -21,4 +21,8 @@ Extraction "model.ml"
   Bech32.valid_plugin_name Bech32.new_identity_without_data Bech32.plugin_exe
   Prims.mkPrims Recipients.wrap Recipients.unwrap Recipients.unwrap_one
   Age.plan_encrypt Age.file_bytes Age.encrypt_bytes Age.encrypt_session Age.armored_session
+  KeyFile.parse_identities KeyFile.parse_recipients KeyFile.cli_parse_identities KeyFile.cli_parse_recipients KeyFile.scan_lines
+  Plugin.recipient_client Plugin.identity_client Plugin.transcript Plugin.atoi_zero
+  SshEnc.enc_unwrap SshEnc.fresh
+  Cli.decrypt_cli Cli.encrypt_cli Cli.keygen_cli Cli.keygen_stdout
   Age.encrypt_history Age.decrypt_open Age.decrypt_bytes Age.decrypt_src Age.label_rule Age.wrap_all.
